@@ -445,7 +445,7 @@ class pdb2sql(pdb2sql_base):
             model_data = []
             for iModel in range(self._nModel):
                 kwargs['model'] = iModel
-                model_data.append(self.get(columns, **kwargs))
+                model_data.append(self.get(columns, tablename=tablename, **kwargs))
             return model_data
 
         # if we have 0 key we take the entire db
@@ -517,7 +517,7 @@ class pdb2sql(pdb2sql_base):
                         for v in vchunck:
                             new_kwargs = kwargs.copy()
                             new_kwargs[k] = v
-                            data += self.get(columns, **new_kwargs)
+                            data += self.get(columns, tablename=tablename, **new_kwargs)
                         return data
 
                     # otherwise we just go on
@@ -623,7 +623,7 @@ class pdb2sql(pdb2sql_base):
         if 'model' not in keys and self._nModel > 0:
             for iModel in range(self._nModel):
                 kwargs['model'] = iModel
-                self.update(columns, values, **kwargs)
+                self.update(columns, values, tablename=tablename, **kwargs)
             return
 
         # parse the attribute
@@ -643,7 +643,7 @@ class pdb2sql(pdb2sql_base):
                 'Number of cloumns does not match between argument columns and values')
 
         # get the row ID of the selection
-        rowID = self.get('rowID', **kwargs)
+        rowID = self.get('rowID', tablename=tablename, **kwargs)
         nselect = len(rowID)
 
         if nselect != nrow:
